@@ -2,7 +2,147 @@
 import SigV4.Spec.ValidateSpec
 import SigV4.Spec.HeaderSpec
 import SigV4.Model.Requirements
+import SigV4.Lemmas.Headers
 
 namespace SigV4
+
+/-! ### Keys of association lists -/
+
+theorem mem_keys_assocPush {β : Type} (m : List (Bytes × List β)) (k : Bytes) (v : β) (x : Bytes) :
+    x ∈ (assocPush m k v).map Prod.fst ↔ x ∈ m.map Prod.fst ∨ x = k := by
+  induction m with
+  | nil => simp [assocPush]
+  | cons e rest ih =>
+    obtain ⟨k', vs⟩ := e
+    unfold assocPush
+    by_cases h : k' = k
+    · subst h
+      simp only [if_true, List.map_cons, List.mem_cons]
+      constructor
+      · intro h; exact Or.inl h
+      · rintro (h | h)
+        · exact h
+        · exact Or.inl h
+    · simp only [h, if_false, List.map_cons, List.mem_cons, ih]
+      constructor
+      · rintro (h | h | h)
+        · exact Or.inl (Or.inl h)
+        · exact Or.inl (Or.inr h)
+        · exact Or.inr h
+      · rintro ((h | h) | h)
+        · exact Or.inl h
+        · exact Or.inr (Or.inl h)
+        · exact Or.inr (Or.inr h)
+
+theorem mem_keys_normalizeHeaders_gen (hs : HeaderList) (m : HeaderMap) (x : Bytes) :
+    x ∈ (normalizeHeaders hs m).map Prod.fst ↔
+      x ∈ m.map Prod.fst ∨ x ∈ hs.map (fun h => asciiLower h.1) := by
+  induction hs generalizing m with
+  | nil => simp [normalizeHeaders]
+  | cons e rest ih =>
+    obtain ⟨k, v⟩ := e
+    simp only [normalizeHeaders, ih, mem_keys_assocPush, List.map_cons, List.mem_cons]
+    constructor
+    · rintro ((h | h) | h)
+      · exact Or.inl h
+      · exact Or.inr (Or.inl h)
+      · exact Or.inr (Or.inr h)
+    · rintro (h | h | h)
+      · exact Or.inl (Or.inl h)
+      · exact Or.inl (Or.inr h)
+      · exact Or.inr h
+
+/-- The keys of the normalised header map are exactly the lower-cased header names. -/
+theorem mem_keys_normalizeHeaders (hs : HeaderList) (x : Bytes) :
+    x ∈ (normalizeHeaders hs []).map Prod.fst ↔ x ∈ hs.map (fun h => asciiLower h.1) := by
+  simp [mem_keys_normalizeHeaders_gen]
+
+theorem assocGet_isSome_iff {β : Type} (m : List (Bytes × β)) (k : Bytes) :
+    (assocGet m k).isSome = true ↔ k ∈ m.map Prod.fst := by
+  induction m with
+  | nil => simp [assocGet]
+  | cons e rest ih =>
+    obtain ⟨k', v⟩ := e
+    unfold assocGet
+    by_cases h : k' = k
+    · simp [h]
+    · have h' : ¬ k = k' := fun e => h e.symm
+      simp [h, h', ih]
+
+/-! ### `requirementsMet` as a proposition -/
+
+theorem requirementsMet_eq_true_iff (reqs : Requirements) (hdrs : HeaderMap) (signed : List Bytes) :
+    requirementsMet reqs hdrs signed = true ↔
+      (HOST ∈ signed ∨ AUTHORITY ∈ signed) ∧
+      (∀ a ∈ reqs.always, asciiLower a ∈ signed) ∧
+      (∀ c ∈ reqs.ifInRequest, asciiLower c ∈ hdrs.map Prod.fst → asciiLower c ∈ signed) ∧
+      (∀ p ∈ reqs.prefixes, ∀ n ∈ hdrs.map Prod.fst,
+          (asciiLower p).isPrefixOf n = true → n ∈ signed) := by
+  unfold requirementsMet isPrefixOf
+  simp only [Bool.and_eq_true, Bool.or_eq_true, List.all_eq_true, List.contains_iff_mem,
+    Bool.not_eq_true', List.mem_map, and_assoc]
+  refine and_congr Iff.rfl (and_congr Iff.rfl (and_congr ?_ ?_))
+  · refine forall_congr' fun c => forall_congr' fun _ => ?_
+    cases hc : (assocGet hdrs (asciiLower c)).isSome
+    · have : ¬ (∃ a, a ∈ hdrs ∧ a.1 = asciiLower c) := by
+        intro h
+        have := (assocGet_isSome_iff hdrs (asciiLower c)).2 (List.mem_map.2 h)
+        simp [hc] at this
+      simp [this]
+    · have : ∃ a, a ∈ hdrs ∧ a.1 = asciiLower c :=
+        List.mem_map.1 ((assocGet_isSome_iff hdrs (asciiLower c)).1 hc)
+      simp [this]
+  · refine forall_congr' fun p => forall_congr' fun _ => ?_
+    constructor
+    · rintro h n ⟨kv, hkv, rfl⟩ hpre
+      rcases h kv hkv with h | h
+      · rw [hpre] at h; cases h
+      · exact h
+    · intro h kv hkv
+      cases hpre : (asciiLower p).isPrefixOf kv.1
+      · exact Or.inl rfl
+      · exact Or.inr (h kv.1 ⟨kv, hkv, rfl⟩ hpre)
+
+/-! ### Dependence on the declared lists only through lower-cased membership -/
+
+theorem all_congr_of_mem_iff {α : Type} (l l' : List α) (f : α → Bool)
+    (h : ∀ x, x ∈ l ↔ x ∈ l') : l.all f = l'.all f := by
+  rw [Bool.eq_iff_iff]
+  simp only [List.all_eq_true]
+  constructor
+  · intro H x hx; exact H x ((h x).2 hx)
+  · intro H x hx; exact H x ((h x).1 hx)
+
+theorem all_lower_congr (l l' : List Bytes) (f : Bytes → Bool)
+    (h : ∀ x, x ∈ l.map asciiLower ↔ x ∈ l'.map asciiLower) :
+    l.all (fun a => f (asciiLower a)) = l'.all (fun a => f (asciiLower a)) := by
+  have := all_congr_of_mem_iff _ _ f h
+  simpa [List.all_map, Function.comp_def] using this
+
+/-! ### `fromRequestParts` and `validate` -/
+
+theorem fromRequestParts_headers (H : Bytes → Bytes) (opts : Options) (other : OtherCharset)
+    (req : Request) (fp : FromParts) (h : fromRequestParts H opts other req = .ok fp) :
+    fp.creq.headers = normalizeHeaders req.headers [] := by
+  unfold fromRequestParts at h
+  split at h
+  · cases h
+  · cases h
+  · split at h
+    · cases h
+    · cases h
+    · simp only at h
+      split at h
+      · split at h
+        · cases h
+        · cases h
+        · split at h
+          · cases h
+          · cases h
+          · repeat' split at h
+            all_goals first
+              | (injection h with h; subst h; rfl)
+              | cases h
+      · injection h with h; subst h; rfl
 
 end SigV4
